@@ -839,6 +839,26 @@ func (e *faultseqEngine) plan(seed uint64, tier string) []fsCase {
 				default:
 					cases = append(cases, fsCase{c, []Fault{{Pos: k, Call: call, Kind: kind}}})
 				}
+				if kind == "err" && call == cSign {
+					// a device that says its refusal is temporary; once, and for good
+					cases = append(cases, fsCase{c, []Fault{{Pos: k, Call: call, Kind: kind, Errno: "temporary"}}})
+					cases = append(cases, fsCase{c, []Fault{{Pos: k, Call: call, Kind: kind, Errno: "temporary", Persist: true}}})
+				}
+				if (kind == "err" || kind == "partial_err") && call == cReadAt {
+					// the image medium: identities that a careless reader loop takes for the end of the data
+					for _, en := range []string{"unexpected_eof", "unexpected_eof_wrapped", "eio"} {
+						f := Fault{Pos: k, Call: call, Kind: kind, Errno: en}
+						if kind == "partial_err" {
+							f.Arg = 2
+						}
+						cases = append(cases, fsCase{c, []Fault{f}})
+					}
+				}
+				if kind == "partial_err" && (call == cWrite || call == cRead) {
+					for _, en := range []string{"eintr", "enoent"} {
+						cases = append(cases, fsCase{c, []Fault{{Pos: k, Call: call, Kind: kind, Arg: 2, Errno: en}}})
+					}
+				}
 				if kind == "err" && call != cSign && call != cReadAt {
 					// the same failure with the identity the operating system gives it (what errors.Is / os.IsNotExist look at).
 					// One exception: the top-level getters of package efi define "the variable file does not exist" as "not set",
